@@ -283,12 +283,12 @@ theorem Inv.step_over_first {s : Buf} {F T : List Nat} {c n : Nat} (h : Inv s F 
   · have := perm_step2 (t := s.nextId + 1) (p := s.nextId) h.perm
     simpa [hT] using this
   · intro x hx
-    simp only [Buf.pre, List.mem_append, List.mem_singleton] at hx ⊢
+    simp only [List.mem_append, List.mem_singleton] at hx ⊢
     rcases hx with (hx | hx) | hx
     · have := h.fresh x hx; omega
     · omega
     · omega
-  · simp only [Buf.pre]
+  · simp only
     refine List.nodup_append.2 ⟨List.nodup_append.2 ⟨h.nodup, by simp, ?_⟩, by simp, ?_⟩
     · intro a ha b hb
       simp at hb; subst hb
@@ -317,5 +317,195 @@ theorem Inv.step_over_first {s : Buf} {F T : List Nat} {c n : Nat} (h : Inv s F 
       rw [this]
       refine ⟨by simp, by simp, ?_⟩
       simp [Buf.pre]; omega
+
+/-- Case C: the last table page still has a free slot. -/
+theorem Inv.step_over_ent {s : Buf} {F T : List Nat} {c n : Nat} (h : Inv s F c T n)
+    (hfull : s.pptr = s.ps) (hok : PageOK s.ps)
+    (t0 : Nat) (T' : List Nat) (tl : Nat) (e : List Nat) (hgt : K < (F ++ [c]).length) (hT : T = t0 :: T')
+    (hs : s.slots = (F ++ [c]).take (K - 1) ++ [t0])
+    (hc : Chain s.tmem (tableCap s.ps) T ((F ++ [c]).drop (K - 1)))
+    (hl : T.getLast? = some tl) (hm : s.tmem tl = some ⟨none, e⟩)
+    (hp : s.pages = .tbl tl (hdr + ptr * e.length)) (he : s.pagesEnd = .tbl tl s.ps)
+    (hlt : e.length < tableCap s.ps) :
+    Inv s.putc (F ++ [c]) s.nextId T (n + 1) ∧ s.putc.ps = s.ps ∧
+      s.putc.nextId = s.nextId + 1 ∧ s.putc.pptr = 1 := by
+  have hps := hok.pos
+  obtain ⟨hpe, hE2⟩ := hok.eq
+  have hh8 := hdr_eq
+  have hp8 := ptr_eq
+  rw [hh8, hp8] at hpe
+  rw [hh8, hp8] at hp
+  have hK := K_pos
+  have hne : ¬ (s.pre.pages = s.pre.pagesEnd) := by
+    simp only [Buf.pre, hp, he]
+    intro hh; injection hh with _ hh; omega
+  have hput : s.putc =
+      { s.pre with
+        tmem := s.tmem.set tl ⟨none, e ++ [s.nextId]⟩,
+        pages := .tbl tl (8 + 8 * e.length + 8),
+        cur := some s.nextId, syncPt := 0, pptr := 1, epptr := s.ps } := by
+    rw [putc_full h.nofault (by rw [h.ep]; omega), overflow_eq h.nofault h.sy]
+    simp only [hne, if_false]
+    have h2 : 8 + 8 * e.length + 8 ≤ s.ps := by omega
+    unfold Buf.storePages
+    have hps' : s.ps ≠ 0 := by omega
+    simp [Buf.pre, h.nofault, hp, hm, h2, hps', hh8, hp8]
+  have hn := h.total
+  rw [hput]
+  refine ⟨⟨h.nofault, ?_, ?_, ?_, rfl, rfl, by simp, by simp [Buf.pre]; omega, ?_, by simp, ?_, ?_⟩, rfl, rfl, rfl⟩
+  · exact perm_step1 h.perm
+  · intro x hx
+    simp only [Buf.pre, List.mem_append, List.mem_singleton] at hx ⊢
+    rcases hx with hx | hx
+    · have := h.fresh x hx; omega
+    · omega
+  · simp only [Buf.pre]
+    refine List.nodup_append.2 ⟨h.nodup, by simp, ?_⟩
+    intro a ha b hb
+    simp at hb; subst hb
+    have := h.fresh a ha; omega
+  · simp only [Buf.pre, List.length_append, List.length_singleton, Nat.add_mul, Nat.one_mul]
+    omega
+  · have := h.sz; have := h.sy
+    simp only [Buf.pre]; omega
+  · have hlen : K - 1 ≤ (F ++ [c]).length := by omega
+    refine Layout.tbl t0 T' tl (e ++ [s.nextId]) (by simp at hgt ⊢; omega) hT ?_ ?_ hl (by simp [TMem.set])
+      (by simp [hh8, hp8]; omega) (by simpa [Buf.pre] using he)
+    · rw [List.take_append_of_le_length hlen]; exact hs
+    · rw [List.drop_append_of_le_length hlen]
+      exact Chain.snoc_ent hc h.T_nodup hl hm hlt (by simp [TMem.set]) (by intro q hq; simp [TMem.set, hq])
+
+/-- Case D: the last table page is full; a new table page is linked behind it. -/
+theorem Inv.step_over_tbl {s : Buf} {F T : List Nat} {c n : Nat} (h : Inv s F c T n)
+    (hfull : s.pptr = s.ps) (hok : PageOK s.ps)
+    (t0 : Nat) (T' : List Nat) (tl : Nat) (e : List Nat) (hgt : K < (F ++ [c]).length) (hT : T = t0 :: T')
+    (hs : s.slots = (F ++ [c]).take (K - 1) ++ [t0])
+    (hc : Chain s.tmem (tableCap s.ps) T ((F ++ [c]).drop (K - 1)))
+    (hl : T.getLast? = some tl) (hm : s.tmem tl = some ⟨none, e⟩)
+    (hp : s.pages = .tbl tl (hdr + ptr * e.length)) (he : s.pagesEnd = .tbl tl s.ps)
+    (hlt : e.length = tableCap s.ps) :
+    Inv s.putc (F ++ [c]) s.nextId (T ++ [s.nextId + 1]) (n + 1) ∧ s.putc.ps = s.ps ∧
+      s.putc.nextId = s.nextId + 2 ∧ s.putc.pptr = 1 := by
+  have hps := hok.pos
+  obtain ⟨hpe, hE2⟩ := hok.eq
+  have hh8 := hdr_eq
+  have hp8 := ptr_eq
+  rw [hh8, hp8] at hpe
+  rw [hh8, hp8] at hp
+  have hK := K_pos
+  have htl : tl < s.nextId := h.T_sub tl (List.mem_of_getLast? hl)
+  have heq : s.pre.pages = s.pre.pagesEnd := by
+    simp only [Buf.pre, hp, he]
+    congr 1; omega
+  have hput : s.putc =
+      { s.pre with
+        nextId := s.nextId + 2, allocs := s.allocs ++ [s.nextId] ++ [s.nextId + 1],
+        tmem := ((s.tmem.set (s.nextId + 1) ⟨none, []⟩).set tl ⟨some (s.nextId + 1), e⟩).set (s.nextId + 1)
+                  ⟨none, [s.nextId]⟩,
+        pages := .tbl (s.nextId + 1) (8 + 8), pagesEnd := .tbl (s.nextId + 1) s.ps,
+        cur := some s.nextId, syncPt := 0, pptr := 1, epptr := s.ps } := by
+    rw [putc_full h.nofault (by rw [h.ep]; omega), overflow_eq h.nofault h.sy]
+    simp only [heq, if_true]
+    have hne1 : tl ≠ s.nextId + 1 := by omega
+    have hopt : s.pre.overflowPageTable =
+        { s.pre with
+          nextId := s.nextId + 2, allocs := s.allocs ++ [s.nextId] ++ [s.nextId + 1],
+          tmem := (s.tmem.set (s.nextId + 1) ⟨none, []⟩).set tl ⟨some (s.nextId + 1), e⟩,
+          pages := .tbl (s.nextId + 1) 8, pagesEnd := .tbl (s.nextId + 1) s.ps } := by
+      unfold Buf.overflowPageTable
+      simp [Buf.pre, Buf.alloc, h.nofault, hp, he, TMem.set, hne1, hm, hh8]
+    rw [hopt]
+    have h2 : 8 + 8 ≤ s.ps := by omega
+    unfold Buf.storePages
+    have hps' : s.ps ≠ 0 := by omega
+    have hne2 : s.nextId + 1 ≠ tl := by omega
+    simp [Buf.pre, h.nofault, TMem.set, h2, hps', hh8, hp8, hne2]
+  have hn := h.total
+  rw [hput]
+  refine ⟨⟨h.nofault, ?_, ?_, ?_, rfl, rfl, by simp, by simp [Buf.pre]; omega, ?_, by simp, ?_, ?_⟩, rfl, rfl, rfl⟩
+  · exact perm_step2 h.perm
+  · intro x hx
+    simp only [List.mem_append, List.mem_singleton] at hx ⊢
+    rcases hx with (hx | hx) | hx
+    · have := h.fresh x hx; omega
+    · omega
+    · omega
+  · simp only
+    refine List.nodup_append.2 ⟨List.nodup_append.2 ⟨h.nodup, by simp, ?_⟩, by simp, ?_⟩
+    · intro a ha b hb
+      simp at hb; subst hb
+      have := h.fresh a ha; omega
+    · intro a ha b hb
+      simp at hb; subst hb
+      simp only [List.mem_append, List.mem_singleton] at ha
+      rcases ha with ha | ha
+      · have := h.fresh a ha; omega
+      · omega
+  · simp only [Buf.pre, List.length_append, List.length_singleton, Nat.add_mul, Nat.one_mul]
+    omega
+  · have := h.sz; have := h.sy
+    simp only [Buf.pre]; omega
+  · have hlen : K - 1 ≤ (F ++ [c]).length := by omega
+    have hnotin : s.nextId + 1 ∉ T := fun hx => by have := h.T_sub _ hx; omega
+    refine Layout.tbl t0 (T' ++ [s.nextId + 1]) (s.nextId + 1) [s.nextId] (by simp at hgt ⊢; omega)
+      (by simp [hT]) ?_ ?_ (by simp) (by simp [TMem.set]) (by simp [hh8, hp8]) (by simp [Buf.pre])
+    · rw [List.take_append_of_le_length hlen]; exact hs
+    · rw [List.drop_append_of_le_length hlen]
+      refine Chain.snoc_tbl (show 0 < tableCap s.ps by omega) hc h.T_nodup hnotin hl hm hlt ?_ (by simp [TMem.set]) ?_
+      · have : tl ≠ s.nextId + 1 := by omega
+        simp [TMem.set, this]
+      · intro q hq1 hq2; simp [TMem.set, hq1, hq2]
+
+/-- `overflow` from any state satisfying the invariant whose put area is full. -/
+theorem Inv.step_over {s : Buf} {F T : List Nat} {c n : Nat} (h : Inv s F c T n)
+    (hfull : s.pptr = s.ps) (hps : 0 < s.ps) (hok : K * s.ps < n + 1 → PageOK s.ps) :
+    ∃ T', Inv s.putc (F ++ [c]) s.nextId T' (n + 1) ∧ s.putc.ps = s.ps ∧
+      s.nextId < s.putc.nextId ∧ s.putc.pptr = 1 := by
+  have hn := h.total
+  cases h.layout with
+  | inl hle hs hT hp he =>
+    by_cases hlt : (F ++ [c]).length < K
+    · obtain ⟨h1, h2, h3, h4⟩ := h.step_over_inl hfull hps hlt hs hT hp he
+      exact ⟨T, h1, h2, by omega, h4⟩
+    · have hKe : (F ++ [c]).length = K := by omega
+      have hpo : PageOK s.ps := by
+        apply hok
+        have : K = F.length + 1 := by simp at hKe; omega
+        rw [this, Nat.add_mul, Nat.one_mul]; omega
+      obtain ⟨h1, h2, h3, h4⟩ := h.step_over_first hfull hpo hKe hs hT hp he
+      exact ⟨_, h1, h2, by omega, h4⟩
+  | tbl t0 T' tl e hgt hT hs hc hl hm hp he =>
+    have hpo : PageOK s.ps := by
+      apply hok
+      have hKF : K ≤ F.length := by simp at hgt; omega
+      have := Nat.mul_le_mul_right s.ps hKF
+      omega
+    obtain ⟨e', he1, _, he3⟩ := hc.last hl
+    have : e' = e := by rw [hm] at he1; simpa using he1.symm
+    subst this
+    by_cases hlt : e'.length < tableCap s.ps
+    · obtain ⟨h1, h2, h3, h4⟩ := h.step_over_ent hfull hpo t0 T' tl e' hgt hT hs hc hl hm hp he hlt
+      exact ⟨T, h1, h2, by omega, h4⟩
+    · obtain ⟨h1, h2, h3, h4⟩ := h.step_over_tbl hfull hpo t0 T' tl e' hgt hT hs hc hl hm hp he (by omega)
+      exact ⟨_, h1, h2, by omega, h4⟩
+
+/-- The first byte of an entry. -/
+theorem begin_putc (ps a0 : Nat) (hps : 0 < ps) :
+    Inv (Buf.begin ps a0).putc [] a0 [] 1 ∧ (Buf.begin ps a0).putc.ps = ps ∧
+      (Buf.begin ps a0).putc.nextId = a0 + 1 ∧ (Buf.begin ps a0).putc.pptr = 1 := by
+  have hK := K_pos
+  have hK' : ¬ (K ≤ 0) := by omega
+  have hK'' : K ≠ 0 := by omega
+  have hps' : ps ≠ 0 := by omega
+  have hput : (Buf.begin ps a0).putc =
+      { Buf.begin ps a0 with
+        nextId := a0 + 1, allocs := [a0], slots := [a0], pages := .inl 1,
+        cur := some a0, syncPt := 0, pptr := 1, epptr := ps } := by
+    unfold Buf.putc Buf.overflow
+    simp [Buf.begin, Buf.sync, Buf.alloc, Buf.storePages, hK, hps', Ne.symm hK'']
+  rw [hput]
+  refine ⟨⟨rfl, by simp, by simp, by simp, rfl, rfl, by simp, by simp [Buf.begin]; omega, by simp, by simp,
+    by simp [Buf.begin], ?_⟩, rfl, rfl, rfl⟩
+  exact Layout.inl (by simp; omega) rfl rfl rfl rfl
 
 end Babylon.Log
